@@ -102,6 +102,9 @@ class Assume:
 
     # ------------------------------------------------------------------ compare
     def assume_compare(self, node, truth, env):
+        if self.is_memo_test(node):
+            self.eval(node.left, env)
+            return [env]            # whether a key is already memoised depends on the call history
         if len(node.ops) > 1:
             # a op b op c  ==  (a op b) and (b op c)
             parts = []
